@@ -133,6 +133,9 @@ class ExhaustiveGateRemovalPass(BasePass):
 
             for c in frontier:
                 for cycle, op in c.operations_with_cycles():
+                    if not self.collection_filter(op):
+                        continue
+
                     point = (cycle, op.location[0])
                     copy = c.copy()
                     copy.pop(point)
